@@ -94,6 +94,13 @@ func (app *App) checkRecovery() {
 		return
 	}
 
+	if sstatus == nil {
+		// stuck commits on a node that is itself the recorded master and has no replica status:
+		// there is nothing to compare against yet (and sstatus must not be dereferenced below)
+		app.logger.Info().Msg("recovery: local node has no replica status, waiting")
+		return
+	}
+
 	app.logger.Info().Msgf("recovery: master %s has GTIDs %s", master, mgtids)
 	app.logger.Info().Msgf("recovery: local node %s has GTIDs %s", localNode.Host(), sstatus.GetExecutedGtidSet())
 
